@@ -15,12 +15,16 @@ CHECKS = {
          "(C04_remote_cache_holds_the_served_records_partial = C13 listener invariant composed with the cache's replacement rule); "
          "(2) the announcement is the response [PTR; SRV; TXT] of the published records; (3) a browser of that type holding exactly those "
          "records reports the instance as added with the provider's type, name, SRV target, port and attributes; C01/C02 give the codec "
-         "hop. The induction over network schedules (several nodes, delays, duplication) is not mechanised; the end-to-end statement is "
+         "hop. Composition proved over EVERY history for one provider and any number of passive browsers on a once-heard, duplicating or "
+         "arbitrarily delayed FIFO link (NetPair.v, NetLag.v), for two providers of unrelated types (NetTwo.v) and for any number of "
+         "providers whose types are unrelated to the browsers' type, in any interleaving "
+         "(C04_browsers_follow_their_provider_among_many_partial, NetMany.v). Several instances of one type in one cache, active "
+         "browsers and expiry inside the history are not mechanised; the end-to-end statement is also "
          "decided per run: simulated networks of 1..4 real provider stacks and 1..3 real browsers exchange packets through the real "
          "toPacket/fromPacket with per-link delays, loop-back and duplication (incl. sequential histories in which every provider "
          "vanishes and expires before the next starts); after draining every browser's view must equal the services offered by the "
          "live providers of its type.",
-         "DESIGN.md section 4 (C04)", "Rocq proofs of the hops (provider history -> remote cache content; announcement -> report; codec round trip) + simulated networks of the real stacks judged against the script's ground truth"),
+         "DESIGN.md section 4 (C04)", "Rocq proofs of the hops (provider history -> remote cache content; announcement -> report; codec round trip) and of their composition over all histories and interleavings of providers of unrelated types + simulated networks of the real stacks judged against the script's ground truth"),
  "C09": ("Theorems (Properties_C09.v): C09_incumbent_keeps_its_hostname (HostNet.v) - over ALL schedules of a two-host network without loss "
          "or delay, an incumbent registered under n that can answer the newcomer's source (C17 condition) and does not re-assert keeps the "
          "newcomer from ever registering n, whatever the newcomer does (probes, conflicts, registrations, re-assertions): invariant 'B holds "
@@ -119,8 +123,9 @@ CHECKS = {
          "exists and is confirmed (C13_listener_holds_exactly_the_served_records) and nothing otherwise, in particular after destruction "
          "(C13_listener_holds_nothing_otherwise): every change of name, type, target, port or attributes is preceded by a goodbye or "
          "replaces the old data. Invariant CInv: record shapes, instance-name structure label.type through prober candidates, pending "
-         "prober relation. Handler-level lemmas for farewell / re-confirmation / flush bits. Tie + per run: acceptor codes 40-42 on "
-         "implementation traces.",
+         "prober relation. Handler-level lemmas for farewell / re-confirmation / flush bits. C13_multicasts_never_mix_goodbye_and_announcement_partial "
+         "(ProviderUniform.v): every multicast response names its records all with TTL 0 or all live. Tie + per run: acceptor codes 40-44 on "
+         "implementation traces (44: a service multicast mixing withdrawn and live records).",
          "DESIGN.md section 4 (C12/C13)", "Rocq invariant proof over all handler sequences of the provider composite (ghost listener) + executable acceptor with reference listener + differential correspondence under virtual time"),
  "C14": ("Theorems (Properties_C14.v, over BrowserInv.v): C14_life_cycles - in any world (any number of browsers of any types, private or "
          "shared caches, any cache content) a browser that has nothing added, followed through ANY sequence of handler invocations "
